@@ -23,6 +23,7 @@ CLAIMS = {
     'C13': dict(mods='StamRelations.tla, StamRead.tla, MC_Laws.tla', text='TLC checks the algebraic laws (converses, symmetry, implications of equals, negation = complement, singleton sets = members, embeds/embedded converse on sets) on MC_Laws over all ranges and all sets of up to two ranges; the implementation\'s complete truth table (test / test_set on selections and selection sets) for every range and every set of up to two ranges, every operator and every all x negate x whitespace x limit combination is recomputed by TLC from StamRelations and compared cell by cell (a panic is a cell value no expectation contains).'),
     'C14': dict(mods='StamStore.tla', text='every failing request of the generated histories (unknown items, invalid offsets, duplicate ids, nested complex selectors, missing target, invalid data) must leave the full projection and all API answers equal to the pre-state (UNCHANGED in the specification) and the history continues on the same store.'),
     'C15': dict(mods='StamSerial.tla, StamStore.tla', text='as C05 for STAM CSV: the view with values reduced to their text (ValText) must be preserved over save/load of the store manifest, dataset, annotation and text files; identifiers come from the plain pool (no list separator); the reloaded store must satisfy StateOK and the history continues on it.'),
+    'C16': dict(mods='StamTranspose.tla, StamStore.tla', text='Transpose(src, via) followed by adding the returned annotations is an action of the store state machine, specified exactly (which side the source lies in, how it is cut at fragment boundaries, where every piece maps to in every other side, the re-segmented copy, the new transposition, copied data; failure leaves the store unchanged) and validated like every other mutation over every source range of three texts sharing re-ordered fragments, over a two-sided, a three-sided and a simple transposition, and back over the transposition that was returned; TLC checks on the bounded model that every transposition in the store (incl. the returned ones) links piecewise identical text.'),
     'C17': dict(mods='StamWebAnno.tla', text='for every annotation of every reachable store (all selector kinds incl. complex targets with key/data sub-selectors, values of every type, identifiers and strings decorated with quotes, backslashes, control and non-BMP characters) and the export configurations (namespaces + extra context, extra target template) the harness parses the exporter output; TLC requires it to be one well-formed JSON object whose text targets are exactly the annotation text selections (resource, start, end) in order, whose template targets repeat them, whose other named items are the targeted resources / datasets / annotations, and whose body carries every data item with the same key, content and JSON type (WebAnnoExpected).'),
     'C18': dict(mods='StamValidation.tla, StamSerial.tla', text='ProtectText(mode) is an action of the store state machine (validation dataset, shared validation data, index deltas) validated like every other mutation; TLC checks ProtectedOK on the bounded model (after protecting in any mode every annotation that selects text is valid); every generated history is followed by Validate, a JSON round trip with stand-off text files, Validate, a round trip during which one character of a text file is substituted, inserted or deleted, and Validate: the counts and the per-annotation verdicts must equal Verdict() of the specification (checksums are modelled as an injective function of the text; the harness computes SHA-1 itself to map stored digests back).'),
 }
